@@ -301,6 +301,12 @@ def extra_suffixes(prop):
     return out
 
 
+# statement files of another property whose theorems this property's decision
+# rules rest on as well (C03P: the time and user-agent rules translated from
+# the Go AST - rotation and backstop are C04's and C05's, staleness is C01's)
+SHARED_STATEMENTS = {"C01": ["C03P"], "C04": ["C03P"], "C05": ["C03P"], "C06": ["C03P"]}
+
+
 def run_property(chk, prop, note=None):
     t0 = time.time()
     thorough = chk.tier == "thorough"
@@ -310,12 +316,12 @@ def run_property(chk, prop, note=None):
         proof_ok, plog = vlib.standard_proof_stage(chk, prop, names)
         # further statement files: Properties/<prop>H.v (history-level lifts),
         # <prop>L.v (liveness), and any other Properties/<prop><LETTER>.v
-        for suffix in extra_suffixes(prop):
-            hnames = theorem_names(prop + suffix)
+        for smod in [prop + x for x in extra_suffixes(prop)] + SHARED_STATEMENTS.get(prop, []):
+            hnames = theorem_names(smod)
             if not hnames:
                 continue
             first = dict(chk.coverage)
-            hok, hlog = vlib.standard_proof_stage(chk, prop + suffix, hnames)
+            hok, hlog = vlib.standard_proof_stage(chk, smod, hnames)
             for key in ("assumptions_printed", "coq_files_in_closure"):
                 merged = first.get(key)
                 if isinstance(merged, dict):
